@@ -117,3 +117,70 @@ def opt_min(a, b):
 def ntokens(s):
     """number of whitespace separated tokens of a string (len(s.split()))"""
     return len(s.split())
+
+
+@spec
+def dget(d, k, dflt):
+    """d.get(k, dflt) for a Dyn value d that is a dict (dflt otherwise)"""
+    return ite(is_dict(d) and k in as_dict(d), as_dict(d)[k], dyn(dflt))
+
+
+@spec
+def b_base_ops(b):
+    """per-turn op cap of a T3 bundle: int(bundle['agent']['caps']['ops']), default 3"""
+    return dyn_int(dget(dget(dget(b, 'agent', {}), 'caps', {}), 'ops', 3))
+
+
+@spec
+def b_slice_cap(b):
+    """per-slice op cap: int(bundle['slice_caps']['t3_ops']) when that is readable, else the per-turn cap"""
+    return ite(is_dict(dget(b, 'slice_caps', {})) and dyn_int_ok(dget(dget(b, 'slice_caps', {}), 't3_ops', b_base_ops(b))),
+               dyn_int(dget(dget(b, 'slice_caps', {}), 't3_ops', b_base_ops(b))), b_base_ops(b))
+
+
+@spec
+def b_caps_ops(b):
+    return min(b_base_ops(b), b_slice_cap(b))
+
+
+@spec
+def b_sim_stats(b):
+    return ite(dyn_truthy(dget(dget(dget(b, 't2', {}), 'metrics', {}), 'sim_stats', {})),
+               dget(dget(dget(b, 't2', {}), 'metrics', {}), 'sim_stats', {}), dyn({}))
+
+
+@spec
+def b_s_max(b):
+    """best retrieval similarity recorded in the bundle (default 0.0)"""
+    return dyn_float(dget(b_sim_stats(b), 'max', 0.0))
+
+
+@spec
+def b_t3cfg(b):
+    return ite(is_dict(dget(b, 'cfg', {})), dget(dget(b, 'cfg', {}), 't3', {}), dyn({}))
+
+
+@spec
+def b_policy(b):
+    return ite(is_dict(b_t3cfg(b)), dget(b_t3cfg(b), 'policy', {}), dyn({}))
+
+
+@spec
+def b_tau_high(b):
+    return dyn_float(dget(b_policy(b), 'tau_high', 0.8))
+
+
+@spec
+def b_tau_low(b):
+    return dyn_float(dget(b_policy(b), 'tau_low', 0.4))
+
+
+@spec
+def b_eps_edit(b):
+    return dyn_float(dget(b_policy(b), 'epsilon_edit', 0.10))
+
+
+@spec
+def intent_for(s_max, tau_high, tau_low, has_labels):
+    """the documented similarity-threshold policy of the rule based planner"""
+    return ite(s_max >= tau_high, 'summary', ite(s_max >= tau_low, ite(has_labels, 'assertion', 'ack'), 'question'))
